@@ -144,7 +144,10 @@ def _add_tree(ti, container, v):
     return var
 
 
-def build(spec):
+def build(spec, _pollute=True):
+    if _pollute:
+        # an unrelated object of the same classes is built first: class- or module-level state must not leak into this one
+        build(seed_layered(), _pollute=False)
     import productmd.treeinfo as pt
     ti = pt.TreeInfo()
     r = spec["release"]
